@@ -542,7 +542,7 @@ d2:
 	if c.Thorough() {
 		small = append(small, exch{cmdShapes[2], respShapes[1]}, exch{cmdShapes[6], respShapes[6]}, exch{cmdShapes[7], respShapes[5]})
 	}
-	c.SecBound(sec2, fmt.Sprintf("4 algs x SSC classes {0,wrap} x %d^3 exchange-shape triples; BFS over canonical states (terminal SSC, chip alive, chip SSC), complete menu + genuine in every state at each of 3 levels", len(small)))
+	c.SecBound(sec2, fmt.Sprintf("4 algs x SSC classes {0,wrap} x %d^3 exchange-shape triples; BFS over canonical states (terminal SSC, chip alive, chip SSC), complete menu + genuine in every state at each of 3 levels (thorough: 4 levels on a sub-family)", len(small)))
 	maxStates := 0
 	for _, alg := range smdrv.Algs {
 		for _, ssc := range []int{0, 2} {
@@ -558,12 +558,16 @@ d2:
 						}
 						cf := cfg{alg, ssc}
 						hist := []exch{e0, e1, e2}
+						if c.Thorough() && e2 == small[0] && e1 == small[1] {
+							// thorough: a fourth exchange on a sub-family of the histories (all deviation sequences of length <= 4)
+							hist = append(hist, small[2])
+						}
 						block := alg.Block()
 						par := runHistory(cf, hist, nil, "parallel")
 						type node struct{ devs []deviation }
 						frontier := []node{{}}
 						total := 1
-						for pos := 0; pos < 3; pos++ {
+						for pos := 0; pos < len(hist); pos++ {
 							next := map[string]node{}
 							var order []string
 							for _, nd := range frontier {
